@@ -359,7 +359,7 @@ impl Property for C06 {
         Some("entry-point x principal matrix (28 x 7) with empty role history enumerated completely; histories sampled")
     }
     fn cases(&self, tier: Tier) -> u64 {
-        tier.pick(4000, 60000)
+        tier.pick(10000, 100000)
     }
     fn strategy(&self, _tier: Tier) -> BoxedStrategy<Case> {
         (
